@@ -35,6 +35,8 @@ def run(S):
     f_delim = S.find_fn(core, 'PrettyPrinter::convert_math_delimited')
     found = []
 
+    expr_kinds = set(kt.cast_variant['Expr']) - {kt.k('Space'), kt.k('Hash')}
+
     def sequences(k):
         for combo in itertools.product(CATS, repeat=k):
             if any(a == 'space' and b == 'space' for a, b in zip(combo, combo[1:])):
@@ -66,7 +68,14 @@ def run(S):
                 kids = []
                 for i, c in enumerate(combo):
                     if c == 'expr':
-                        kids.append(Node(kt.k('MathIdent'), text=Str.lit('x%d' % i)))
+                        # any expression kind (symbolic); shaped like `( inner )` so that converters looking into a parenthesised
+                        # expression find an inner expression of any kind as well
+                        ek = z3.BitVec('ek%d' % i, 8)
+                        ik = z3.BitVec('ik%d' % i, 8)
+                        ctx.assume(T.kind_in(ek, expr_kinds))
+                        ctx.assume(T.kind_in(ik, expr_kinds))
+                        kids.append(Node(ek, children=[Node(kt.k('LeftParen'), text=Str.lit('(')), Node(ik, text=Str.lit('x%d' % i)),
+                                                       Node(kt.k('RightParen'), text=Str.lit(')'))]))
                     elif c == 'space':
                         kids.append(ws_node(ctx, 'sp%d' % i))
                     elif c == 'hash':
@@ -203,6 +212,7 @@ def run(S):
             S.violation(key, '%s: %s' % (key, hit[1]['what']), dict(api=hit[1], model=hit[0]))
         else:
             S.inconclusive.append('C09:%s: no solver model reproduced natively (%r)' % (lab, infos[0]))
+    validate_corpus(S, 'math', found, lambda: native_confirm(S, {}))
     S.assumptions += [
         'lexer fact: whitespace tokens consist of char::is_whitespace characters and are never adjacent',
         'expression converters are opaque; the attribute store holds no format-disabled mark (C07 decides that path)',
@@ -226,6 +236,9 @@ def native_confirm(S, info):
         s = info.get(key)
         if s:
             cands.append(('$ (%sa) $\n' % s if key == 'lead' else '$ (a%s) $\n' % s, '(' if key == 'lead' else 'a', 'a' if key == 'lead' else ')', s))
+    # embedded code next to other atoms (parenthesised literals lose their parentheses; no blank may appear or vanish)
+    cands += [('$#("kg")m$\n', '"kg"', 'm', ''), ('$#(2)!$\n', '2', '!', ''), ('$#(2) !$\n', '2', '!', ' '), ('$a#(2)$\n', 'a', '#', ''), ('$#(a)b$\n', 'a)', 'b', ''),
+              ('$#x y$\n', 'x', 'y', ' '), ('$#x;y$\n', 'x;', 'y', ''), ('$#f(1)g$\n', ')', 'g', ''), ('$#(1)+#(2)$\n', '1', '+', ''), ('$x_#(1)y$\n', '1', 'y', '')]
     cands += [('$ ( a\n) $\n', 'a', ')', '\n'), ('$ (\n a ) $\n', 'a', ')', ' '), ('$ (\n a ) $\n', '(', 'a', '\n '), ('$ ( a\n) $\n', '(', 'a', ' '),
               ('$ [ a +\n b\n] $\n', 'b', ']', '\n'),
               ('$ a b $\n', 'a', 'b', ' '), ('$ a\n b $\n', 'a', 'b', '\n '), ('$ ab $\n', 'a', 'b', ''), ('$ ( a ) $\n', '(', 'a', ' '), ('$ (a) $\n', '(', 'a', '')]
